@@ -1,4 +1,5 @@
 import PsyVerif.Lemmas.Inline
+import PsyVerif.Model.InlineIdx
 /-! # C07 — Inlining a call preserves the caller's behaviour
 
 Model: `PsyVerif/Model/Inline.lean` (`validate`, `apply`, `renOf` mirror `InlineTrans.validate`,
@@ -18,6 +19,11 @@ Four defects were found on the pinned tree (each reproduced with gfortran by the
    without renaming and captured the caller's references
    — **fixed** by `fixes/C07-outer-capture.patch`; the model follows the fixed code, and
    `C07_inline_no_capture` holds without any side condition.
+
+The index map of `_update_actual_indices` (array-section actuals) is modelled for ANY rank and any
+position of the sections in `Model/InlineIdx.lean`; `C07_index_map_sound` proves it against Fortran's
+argument-association rule, `C07_*_is_index_map` show the four fixed shapes of `Model/Inline.lean` are
+instances of it.
 
 1 and 2 are not repaired by a small patch: `C07_statement` (the full property) is refuted by two
 kernel-checked witnesses and proved under the decidable side condition `IndexStable`. -/
@@ -285,10 +291,10 @@ theorem C07_validate_closed (c : Call) (h : validate c = .ok ()) :
   · exact Or.inl (findFormal_isSome (by omega) hp)
   · exact Or.inr hl
 
-/-- an accepted array formal receives an array (section) of the same rank with unit strides;
-an expression is never passed to an array formal -/
+/-- an accepted array formal receives an array (section) of the same rank with unit strides whose
+scalar indices are not operations; an expression is never passed to an array formal -/
 theorem C07_validate_array_args (p : Param) (a : Actual) (hp : p.rank ≠ 0) (h : checkArg p a = none) :
-    actualRank a = p.rank ∧ unitStride a = true ∧ ∀ e, a ≠ .expr e := by
+    actualRank a = p.rank ∧ unitStride a = true ∧ (∀ e, a ≠ .expr e) ∧ opIndexed a = false := by
   unfold checkArg at h
   rw [if_neg hp] at h
   split at h
@@ -297,15 +303,18 @@ theorem C07_validate_array_args (p : Param) (a : Actual) (hp : p.rank ≠ 0) (h 
   · rename_i hne1 hne2
     split at h
     · cases h
-    · rename_i hr
+    · rename_i hop
       split at h
-      · rename_i hu
-        refine ⟨by omega, hu, ?_⟩
-        intro e he
-        subst he
-        simp [actualRank] at hr
-        exact hp hr
       · cases h
+      · rename_i hr
+        split at h
+        · rename_i hu
+          refine ⟨by omega, hu, ?_, by simpa using hop⟩
+          intro e he
+          subst he
+          simp [actualRank] at hr
+          exact hp hr
+        · cases h
 
 /-! ### the callee frame is irrelevant; the inlined body does not clobber -/
 
@@ -506,5 +515,178 @@ example : validate { exOK with locals := [1] } = .error .container := by decide
 example : (exec (apply exOK) (storeOf [((1, 0, 0), 2), ((4, 0, 0), 3), ((6, 1, 4), 9), ((0, 2, 0), 5)])) (0, 2, 0)
     = (execCall (renOf exOK) exOK (storeOf [((1, 0, 0), 2), ((4, 0, 0), 3), ((6, 1, 4), 9), ((0, 2, 0), 5)])) (0, 2, 0) := by
   decide
+
+
+/-! ### the index map for array actuals of any rank (`_update_actual_indices`) -/
+
+/-- an explicit section start is used as it is: the `is_lower_bound` branch only replaces an
+expression by a syntactically equal one -/
+theorem actualStart_some (d : Int) (s : Expr) (stp : Int) : actualStart (.sec d (some s) stp) = s := by
+  unfold actualStart
+  simp only [AIdx.isLowerBound, AIdx.startExpr, AIdx.dlo]
+  by_cases h : s = Expr.lit d
+  · simp [h]
+  · simp [h]
+
+/-- an omitted start (`:`) becomes the declared lower bound of that dimension of the actual -/
+theorem actualStart_none (d : Int) (stp : Int) : actualStart (.sec d none stp) = .lit d := by
+  simp [actualStart, AIdx.isLowerBound, AIdx.dlo]
+
+theorem eval_actualStart (d : Int) (st : Option Expr) (stp : Int) (σ : Store) :
+    eval (actualStart (.sec d st stp)) σ = (match st with | none => d | some s => eval s σ) := by
+  cases st with
+  | none => rw [actualStart_none]; rfl
+  | some s => rw [actualStart_some]
+
+/-- **The index map is right, for every rank, every position of the sections and all bounds.**
+If `_update_actual_indices` produces the indices `out` for the local reference `x(ks)`, and all
+sections have unit stride (what `validate` guarantees), then in every store the element
+`a(out)` of the caller is the element Fortran associates with `x(ks)`. -/
+theorem C07_index_map_sound (σ : Store) :
+    ∀ (as : List AIdx) (los : List Int) (ks out : List Expr),
+      updateIdx as los ks = some out → unitSteps as = true →
+      assocElem σ as los (ks.map (eval · σ)) = some (out.map (eval · σ)) := by
+  intro as
+  induction as with
+  | nil =>
+    intro los ks out h _
+    cases los <;> cases ks <;> simp_all [updateIdx, assocElem]
+  | cons a as ih =>
+    intro los ks out h hu
+    cases a with
+    | ix d e =>
+      simp only [updateIdx] at h
+      cases hrec : updateIdx as los ks with
+      | none => simp [hrec] at h
+      | some o =>
+        simp only [hrec, Option.some.injEq] at h
+        subst h
+        have := ih los ks o hrec (by simpa [unitSteps] using hu)
+        simp only [assocElem, this, List.map]
+    | sec d st stp =>
+      cases los with
+      | nil => simp [updateIdx] at h
+      | cons lo los =>
+        cases ks with
+        | nil => simp [updateIdx] at h
+        | cons k ks =>
+          simp only [updateIdx] at h
+          cases hrec : updateIdx as los ks with
+          | none => simp [hrec] at h
+          | some o =>
+            simp only [hrec, Option.some.injEq] at h
+            subst h
+            simp only [unitSteps, Bool.and_eq_true, decide_eq_true_eq] at hu
+            obtain ⟨hs, hu⟩ := hu
+            subst hs
+            have := ih los ks o hrec hu
+            simp only [List.map, assocElem, this, eval_shiftIdx, eval_actualStart, Option.some.injEq,
+              List.cons.injEq, and_true]
+            cases st <;> simp <;> omega
+
+/-- the map is defined exactly when the actual has as many sections as the formal has dimensions
+and the local reference has indices (no reshaping — the `rank` refusal of `validate`) -/
+theorem C07_index_map_defined (as : List AIdx) (los : List Int) (ks : List Expr) :
+    (updateIdx as los ks).isSome = true ↔ (secCount as = los.length ∧ secCount as = ks.length) := by
+  induction as generalizing los ks with
+  | nil => cases los <;> cases ks <;> simp [updateIdx, secCount]
+  | cons a as ih =>
+    cases a with
+    | ix d e =>
+      have := ih los ks
+      simp only [updateIdx, secCount]
+      cases h : updateIdx as los ks <;> simp [h] at this ⊢ <;> omega
+    | sec d st stp =>
+      cases los with
+      | nil => simp [updateIdx, secCount]
+      | cons lo los =>
+        cases ks with
+        | nil => simp [updateIdx, secCount]
+        | cons k ks =>
+          have := ih los ks
+          simp only [updateIdx, secCount, List.length_cons]
+          cases h : updateIdx as los ks <;> simp [h] at this ⊢ <;> omega
+
+/-- the output has one index per position of the actual, and scalar positions are untouched -/
+theorem C07_index_map_length (as : List AIdx) (los : List Int) (ks out : List Expr)
+    (h : updateIdx as los ks = some out) : out.length = as.length := by
+  induction as generalizing los ks out with
+  | nil => cases los <;> cases ks <;> simp_all [updateIdx]
+  | cons a as ih =>
+    cases a with
+    | ix d e =>
+      simp only [updateIdx] at h
+      cases hrec : updateIdx as los ks with
+      | none => simp [hrec] at h
+      | some o => simp only [hrec, Option.some.injEq] at h; subst h; simp [ih los ks o hrec]
+    | sec d st stp =>
+      cases los with
+      | nil => simp [updateIdx] at h
+      | cons lo los =>
+        cases ks with
+        | nil => simp [updateIdx] at h
+        | cons k ks =>
+          simp only [updateIdx] at h
+          cases hrec : updateIdx as los ks with
+          | none => simp [hrec] at h
+          | some o => simp only [hrec, Option.some.injEq] at h; subst h; simp [ih los ks o hrec]
+
+/-- **The stride refusal is necessary**: for `call s(a(2:8:2))` with `x(1:)`, the element `x(3)` is
+`a(6)`, but the index map (which ignores the step) yields `a(4)` -/
+theorem C07_index_map_stride_counterexample :
+    ∃ as los ks out, updateIdx as los ks = some out ∧ unitSteps as = false ∧
+      assocElem (storeOf []) as los (ks.map (eval · (storeOf []))) ≠ some (out.map (eval · (storeOf []))) :=
+  ⟨[.sec 0 (some (.lit 2)) 2], [1], [.lit 3], _, rfl, rfl, by decide⟩
+
+/-! #### the four fixed shapes of `Model/Inline.lean` are instances of the general map -/
+
+theorem C07_sec1_is_index_map (p : Param) (a : Nat) (st : Expr) (u : Bool) (x : Nat) (e : Expr) (d1 d2 : Int) :
+    ∃ i, updateIdx (aidxOf d1 d2 (.sec1 a st u)) [p.lo1] [e] = some [i] ∧
+      substRef1 (.formal p (.sec1 a st u)) x e = .idx1 a i :=
+  ⟨_, by simp only [aidxOf, updateIdx, actualStart_some], rfl⟩
+
+theorem C07_row_is_index_map (p : Param) (a : Nat) (i st : Expr) (u : Bool) (x : Nat) (e : Expr) (d1 d2 : Int) :
+    ∃ i' j', updateIdx (aidxOf d1 d2 (.row a i st u)) [p.lo1] [e] = some [i', j'] ∧
+      substRef1 (.formal p (.row a i st u)) x e = .idx2 a i' j' :=
+  ⟨_, _, by simp only [aidxOf, updateIdx, actualStart_some], rfl⟩
+
+theorem C07_col_is_index_map (p : Param) (a : Nat) (st j : Expr) (u : Bool) (x : Nat) (e : Expr) (d1 d2 : Int) :
+    ∃ i' j', updateIdx (aidxOf d1 d2 (.col a st j u)) [p.lo1] [e] = some [i', j'] ∧
+      substRef1 (.formal p (.col a st j u)) x e = .idx2 a i' j' :=
+  ⟨_, _, by simp only [aidxOf, updateIdx, actualStart_some], rfl⟩
+
+theorem C07_sec2_is_index_map (p : Param) (a : Nat) (st1 st2 : Expr) (u : Bool) (x : Nat) (e1 e2 : Expr) (d1 d2 : Int) :
+    ∃ i' j', updateIdx (aidxOf d1 d2 (.sec2 a st1 st2 u)) [p.lo1, p.lo2] [e1, e2] = some [i', j'] ∧
+      substRef2 (.formal p (.sec2 a st1 st2 u)) x e1 e2 = .idx2 a i' j' :=
+  ⟨_, _, by simp only [aidxOf, updateIdx, actualStart_some], rfl⟩
+
+/-- … and the CALL semantics `bindActual` of those shapes is `assocElem` (unit stride): the location a
+formal element denotes during the call is the one Fortran's association rule gives -/
+theorem C07_bindActual_is_assoc (σ₀ : Store) (p : Param) (a : Nat) (i st : Expr) (k : Int) (d1 d2 : Int) :
+    (∃ f, bindActual σ₀ p (.row a i st true) = .ref f ∧
+      assocElem σ₀ (aidxOf d1 d2 (.row a i st true)) [p.lo1] [k] = some [(f k 0).2.1, (f k 0).2.2]) ∧
+    (∃ f, bindActual σ₀ p (.col a st i true) = .ref f ∧
+      assocElem σ₀ (aidxOf d1 d2 (.col a st i true)) [p.lo1] [k] = some [(f k 0).2.1, (f k 0).2.2]) ∧
+    (∃ f, bindActual σ₀ p (.sec1 a st true) = .ref f ∧
+      assocElem σ₀ (aidxOf d1 d2 (.sec1 a st true)) [p.lo1] [k] = some [(f k 0).2.1]) := by
+  refine ⟨⟨_, rfl, ?_⟩, ⟨_, rfl, ?_⟩, ⟨_, rfl, ?_⟩⟩ <;>
+    simp [aidxOf, assocElem] <;> omega
+
+/-! #### non-vacuity and sanity evaluations (rank 3, sections in non-leading positions) -/
+
+/-- `call s(t3(0, 3:5, j))` with `t3(0:3, 2:5, 1:4)`, `x(2:)`: `x(l)` becomes `t3(0, l - 2 + 3, j)`
+(the scalar index `0` equals the declared lower bound of ITS dimension — irrelevant for the section) -/
+example : updateIdx [.ix 0 (.lit 0), .sec 2 (some (.lit 3)) 1, .ix 1 (.var 5)] [2] [.var 9]
+    = some [.lit 0, .bin .add (.bin .sub (.var 9) (.lit 2)) (.lit 3), .var 5] := by decide
+/-- `call s(t3(:, 2, 2:3))`, `x(:, 0:)`: `x(l, 1)` becomes `t3(l - 1 + 0, 2, 1 - 0 + 2)` -/
+example : updateIdx [.sec 0 none 1, .ix 2 (.lit 2), .sec 1 (some (.lit 2)) 1] [1, 0] [.var 9, .lit 1]
+    = some [.bin .add (.bin .sub (.var 9) (.lit 1)) (.lit 0), .lit 2,
+            .bin .add (.bin .sub (.lit 1) (.lit 0)) (.lit 2)] := by decide
+/-- a section starting at the declared lower bound of a dimension declared from 1, formal `x(:)`: no shift -/
+example : updateIdx [.ix 0 (.var 1), .sec 1 none 1] [1] [.var 9] = some [.var 1, .var 9] := by decide
+example : updateIdx [.ix 0 (.var 1), .sec 1 none 1] [1, 1] [.var 9, .var 9] = none := by decide
+example : assocElem (storeOf [((5, 0, 0), 4)]) [.ix 0 (.lit 0), .sec 2 (some (.lit 3)) 1, .ix 1 (.var 5)] [2] [3]
+    = some [0, 4, 4] := by decide
+example : unitSteps [.ix 0 (.lit 0), .sec 2 (some (.lit 3)) 1] = true ∧ unitSteps [.sec 2 none 2] = false := by decide
 
 end C07
